@@ -99,8 +99,11 @@ class Script:
         self.pv.pop()
         for i in range(2, len(raw), 5):
             raw[i] = 0xFF
+        tail = [b"", b"\xc3", b"\xe3\x81", b"\xf0\x9f\x98", b"\x80"][a % 5]   # truncated sequence at the very end
+        raw = bytearray(bytes(raw) + tail)
+        self.vals[a] = len(raw)
         self.pv.append({"id": a, "hex": bytes(raw).hex()})
-        lossy = bytes(raw).replace(b"\xff", b"\xef\xbf\xbd")
+        lossy = bytes(raw[:len(raw) - len(tail)]).replace(b"\xff", b"\xef\xbf\xbd") + (b"\xef\xbf\xbd" if tail else b"")
         self.nv += 1
         b = self.idbase + self.nv
         self.pv.append({"id": b, "hex": lossy.hex(), "lossy_of": a})
@@ -338,7 +341,8 @@ def gen_reloc(seed, idbase=0, nops=150, width=16384, nkeys=5, name="reloc", kt="
     for k in extra:
         s.op("del", h=1, k=k)
     # ballast in the other bucket: both file ends move above the width boundary
-    bk = s.key_in_bucket(width - 80, n, 1)
+    # (keys are at most 64 KiB: above that only the VALUE file is pushed over the boundary)
+    bk = s.key_in_bucket(min(width - 80, 60000), n, 1)
     bv = s.newval(width - 80)
     s.op("put", h=1, k=bk, v=bv)
     s.op("decode", **dec)
@@ -382,12 +386,17 @@ def gen_iter(seed, idbase=0, nb=("BucketsSize", 128), kt="bytes", rounds=4, name
     def iters(k=3):
         fl = FLAVOURS if k >= len(FLAVOURS) else rng.sample(FLAVOURS, k)
         for f in fl:
-            s.op("iter", h=1, flavour=f)
+            if rng.random() < 0.4:
+                # read-only calls on the same map between the steps of the live traversal
+                s.op("iter", h=1, flavour=f, interleave=rng.sample(["len", "is_empty", "new_iter", "get", "includes"], rng.randrange(1, 4)),
+                     probe=live[:4])
+            else:
+                s.op("iter", h=1, flavour=f)
 
+    live = []
     iters(6)                                            # fresh, empty
     special = {0, n - 1, n - 8, n - 9, n - 10, n - 64, n - 65, 7, 8, 63, 64, 65, 71, 72, 119, 120, 127, 128, n // 2, n // 2 - 1}
     special = sorted(b for b in special if 0 <= b < n)
-    live = []
     for r in range(rounds):
         targets = rng.sample(special, min(len(special), rng.randrange(1, 5))) + [rng.randrange(n) for _ in range(rng.randrange(0, 4))]
         for b in targets:
@@ -448,7 +457,10 @@ def gen_reopen(seed, idbase=0, nops=300, nkeys=40, nb=("BucketsSize", 64), kt="b
     keys = _mk_keys(s, rng, kt, nkeys)
     vids = [s.newval(x) for x in rng.sample(SMALL_VALS, 6) + rng.sample(LARGE_VALS, 3) + [16384, 140000]]
     s.op("open_db", db=0, dir="d")
-    s.op("map", h=1, db=0, name="m", kt=kt, params={"buckets": list(nb)})
+    mname = rng.choice(["m", "m.2023", "stock.a"])
+    other = {"m": "m.bak", "m.2023": "m.2024", "stock.a": "stock.b"}[mname]
+    okeys = _mk_keys(s, rng, kt, 5)
+    s.op("map", h=1, db=0, name=mname, kt=kt, params={"buckets": list(nb)})
     close_at = sorted(rng.sample(range(5, nops), closes))
     for i in range(nops):
         r = rng.random()
@@ -479,16 +491,24 @@ def gen_reopen(seed, idbase=0, nops=300, nkeys=40, nb=("BucketsSize", 64), kt="b
                     s.ops[-1]["v"] = rng.choice(vids)
             how = rng.choice(["drop_all", "new_process"])
             s.op(how)
-            s.op("decode", dir="d", name="m", native=True)
+            s.op("decode", dir="d", name=mname, native=True)
+            if rng.random() < 0.5:
+                # a session that only touches ANOTHER map of the same directory
+                s.op("open_db", db=0, dir="d")
+                s.op("map", h=2, db=0, name=other, kt=kt, params={"buckets": ["BucketsSize", 8]})
+                for k in rng.sample(okeys, 3):
+                    s.op("put", h=2, k=k, v=rng.choice(vids))
+                s.op("dump", h=2, ks=okeys)
+                s.op(rng.choice(["drop_all", "new_process"]))
             if rng.random() < 0.4:
-                s.op("child_dump", dir="d", name="m", kt=kt, params=rng.choice(REOPEN_PARAMS))
+                s.op("child_dump", dir="d", name=mname, kt=kt, params=rng.choice(REOPEN_PARAMS), ks=keys)
             s.op("open_db", db=0, dir="d")
-            s.op("map", h=1, db=0, name="m", kt=kt, params=rng.choice(REOPEN_PARAMS))
-            s.op("dump", h=1)
+            s.op("map", h=1, db=0, name=mname, kt=kt, params=rng.choice(REOPEN_PARAMS))
+            s.op("dump", h=1, ks=keys)
             s.op("iter", h=1, flavour=rng.choice(FLAVOURS))
     s.op("new_process")
-    s.op("decode", dir="d", name="m", native=True)
-    s.op("child_dump", dir="d", name="m", kt=kt, params=rng.choice(REOPEN_PARAMS))
+    s.op("decode", dir="d", name=mname, native=True)
+    s.op("child_dump", dir="d", name=mname, kt=kt, params=rng.choice(REOPEN_PARAMS), ks=keys)
     return s
 
 
@@ -775,6 +795,36 @@ def gen_multi(seed, idbase=0, nops=250, nmaps=3, name="multi"):
     return s
 
 
+def gen_manymaps(seed, idbase=0, count=20, kt="string", name="manymaps"):
+    """C11: more maps of one key type than any cache would keep; every map held by exactly one handle;
+    repeated lookups by name (also through a cloned database handle) must alias the first handle"""
+    rng = random.Random(seed)
+    s = Script(idbase, design=False, name=name)
+    s.meta.update(kind="manymaps", seed=seed, count=count, kt=kt)
+    s.op("open_db", db=0, dir="d")
+    s.op("clone_db", db=1, **{"from": 0})
+    keys = _mk_keys(s, rng, kt, 4)
+    vids = [s.newval(x) for x in (3, 20, 100)]
+    for i in range(count):
+        s.op("map", h=i + 1, db=0, name="map%02d" % i, kt=kt, params={"buckets": ["BucketsSize", 8]})
+        s.op("put", h=i + 1, k=keys[0], v=vids[i % 3])
+    nh = count
+    for i in rng.sample(range(count), min(count, 12)):
+        nh += 1
+        s.op("put", h=i + 1, k=keys[1], v=rng.choice(vids))                 # through the first handle
+        s.op("map", h=nh, db=rng.choice([0, 1]), name="map%02d" % i, kt=kt)   # looked up again by name
+        s.op("get", h=nh, k=keys[1])
+        s.op("put", h=nh, k=keys[2], v=rng.choice(vids))                    # through the second handle
+        s.op("get", h=i + 1, k=keys[2])
+        s.op("len", h=i + 1)
+        s.op("dump", h=nh, ks=keys, **{"as": "C11.result"})
+    s.op("db_sync_all", db=0)
+    s.op("new_process")
+    for i in range(count):
+        s.op("child_dump", dir="d", name="map%02d" % i, kt=kt, ks=keys, **{"as": "C11.result"})
+    return s
+
+
 def gen_readonly(seed, idbase=0, nb=("BucketsSize", 16), state="dense", kt="bytes", nro=60, name="ro"):
     """C15: a state class is built and closed; then a session of read-only calls only; the three files
     must be byte-identical before and after."""
@@ -816,7 +866,10 @@ def gen_readonly(seed, idbase=0, nb=("BucketsSize", 16), state="dense", kt="byte
         elif r < 0.45:
             s.op(rng.choice(["len", "is_empty"]), h=1)
         elif r < 0.62:
-            s.op("iter", h=1, flavour=rng.choice(FLAVOURS))
+            if rng.random() < 0.5:
+                s.op("iter", h=1, flavour=rng.choice(FLAVOURS), interleave=rng.sample(["len", "is_empty", "new_iter", "get", "includes"], 2), probe=keys[:5])
+            else:
+                s.op("iter", h=1, flavour=rng.choice(FLAVOURS))
         elif r < 0.70:
             s.op("bulk_get", h=1, ks=[rng.choice(keys + absent) for _ in range(rng.randrange(0, 8))])
         elif r < 0.80:
@@ -833,7 +886,7 @@ def gen_readonly(seed, idbase=0, nb=("BucketsSize", 16), state="dense", kt="byte
     return s
 
 
-def gen_twice(seed, idbase=0, nops=150, nb=("BucketsSize", 32), kt="bytes", bufs=None, name="twice", nkeys=20):
+def gen_twice(seed, idbase=0, nops=150, nb=("BucketsSize", 32), kt="bytes", bufs=None, name="twice", nkeys=20, tail=False):
     """C18: the same update history with the same parameters is run twice: replica A plainly, replica B in
     another process and directory with read-only calls spliced in; the files must be byte-identical."""
     rng = random.Random(seed)
@@ -856,11 +909,35 @@ def gen_twice(seed, idbase=0, nops=150, nb=("BucketsSize", 32), kt="bytes", bufs
         else:
             ks = list(dict.fromkeys(rng.choice(keys) for _ in range(rng.randrange(2, 9))))
             upd.append((rng.choice(["bulk_put", "put_from_iter", "bulk_del"]), ks, [rng.choice(vids) for _ in ks]))
+    # phase 2 (tail): a value file larger than its buffer; the record at the end of the file is deleted and
+    # a shorter one appended, with many reads of other records in between in replica B only
+    tail_keys = _mk_keys(s, rng, kt, 160) if tail else []
+    tv = [s.newval(x) for x in (200, 180, 150, 90, 60, 30, 700, 650)] if tail else []
+    tail_ops = []
+    if tail:
+        for k in tail_keys:
+            tail_ops.append(("put", k, rng.choice(tv[:3] + tv[6:])))
+        fresh = _mk_keys(s, rng, kt, 12)
+        lastk = tail_keys[-1]
+        for nk in fresh:
+            tail_ops.append(("del", lastk, None))
+            tail_ops.append(("reads", None, None))
+            tail_ops.append(("put", nk, rng.choice(tv[3:6])))
+            lastk = nk
     for rep, d in (("A", "dA"), ("B", "dB")):
         s.op("open_db", db=0, dir=d)
         s.op("map", h=1, db=0, name="m", kt=kt, params=params)
         if rep == "B":
             s.op("iter", h=1, flavour=rng.choice(FLAVOURS))      # traversal of the fresh, empty table
+        for (o, k, v) in tail_ops:
+            if o == "put":
+                s.op("put", h=1, k=k, v=v)
+            elif o == "del":
+                s.op("del", h=1, k=k)
+            elif rep == "B":
+                for kk in tail_keys[:150:2]:
+                    s.op("get", h=1, k=kk)
+                s.op("iter", h=1, flavour="values")
         for (o, k, v) in upd:
             if o == "put":
                 s.op("put", h=1, k=k, v=v)
@@ -939,6 +1016,12 @@ def gen_wrongtype(seed, idbase=0, pairs=None, sigvals=4, name="wrongtype"):
             s.op("mutate_file", file="d/m_%s.%s" % (a, ext), copy_from="bak/m_%s.%s" % (b, ext), map="d/m_" + a, foreign=True)
             refused("d", "m_" + a, a, "file .%s of %s swapped in" % (ext, b))
             s.op("mutate_file", file="d/m_%s.%s" % (a, ext), copy_from="bak/m_%s.%s" % (a, ext), map="d/m_" + a, foreign=False)
+    # (2b) a file of the SIBLING kind of the same map in place of another one (botched restore)
+    for kt in rng.sample(KTS, 2):
+        for dst, src in (("val", "key"), ("key", "val"), ("htx", "key"), ("key", "htx"), ("val", "htx")):
+            s.op("mutate_file", file="d/m_%s.%s" % (kt, dst), copy_from="bak/m_%s.%s" % (kt, src), map="d/m_" + kt, foreign=True)
+            refused("d", "m_" + kt, kt, "the .%s file in place of the .%s file" % (src, dst))
+            s.op("mutate_file", file="d/m_%s.%s" % (kt, dst), copy_from="bak/m_%s.%s" % (kt, dst), map="d/m_" + kt, foreign=False)
     # (3) single-byte mutations of the 16 signature bytes of each file
     a = rng.choice(KTS)
     for ext in ("htx", "key", "val"):
@@ -969,7 +1052,7 @@ def gen_bulk(seed, idbase=0, nops=200, kt="bytes", nb=("BucketsSize", 16), name=
     keys = _mk_keys(s, rng, kt, 40)
     vids = [s.val_ascii(x) for x in (0, 1, 3, 10, 20, 21, 100, 300, 1100, 2000)] + [s.val_ascii(rng.randrange(1, 60)) for _ in range(10)]
     # values that are not valid UTF-8: the *_string variants return their lossy decoding
-    raw = [s.val_invalid_utf8(x)[0] for x in (9, 20, 300)]
+    raw = [s.val_invalid_utf8(x)[0] for x in (9, 20, 300, 11, 12, 13, 14)]
     s.op("open_db", db=0, dir="d")
     s.op("map", h=1, db=0, name="m", kt=kt, params={"buckets": list(nb)})
 
@@ -1044,6 +1127,51 @@ def gen_conv(seed, idbase=0, extra=2000, name="conv"):
             if kt in ("bytes", "string") and rng.random() < 0.8:
                 continue
             s.op("conv", kt=kt, u64=str(x))
+    return s
+
+
+def gen_samehash(seed, idbase=0, kt="bytes", nops=200, name="samehash"):
+    """C10: two keys are the same exactly when their bytes are equal - also when their full 64-bit placement
+    hashes are equal (pairs constructed by inverting the hash), looked up right after each other"""
+    rng = random.Random(seed)
+    s = Script(idbase, design=True, name=name)
+    s.meta.update(kind="samehash", seed=seed, kt=kt)
+    groups = []
+    for g in range(4):
+        h = rng.getrandbits(64)
+        ks = []
+        for _ in range(3):
+            b = layout.key_for_hash(rng.choice([16, 17, 24, 9]), h, rng)
+            if b not in s.keys.values():
+                kid = s.key(raw=b)
+                if kid:
+                    ks.append(kid)
+        groups.append(ks)
+    vids = [s.val(x) for x in (3, 20, 100, 0)]
+    s.op("open_db", db=0, dir="d")
+    s.op("map", h=1, db=0, name="m", kt=kt, params={"buckets": rng.choice([["BucketsSize", 1], ["BucketsSize", 64], ["Capacity", 1000]])})
+    for i in range(nops):
+        g = rng.choice(groups)
+        a, b = rng.sample(g, 2)
+        r = rng.random()
+        if r < 0.3:
+            s.op("put", h=1, k=a, v=rng.choice(vids))
+        elif r < 0.45:
+            s.op("del", h=1, k=a)
+        else:
+            # a lookup of one key directly followed by calls on a DIFFERENT key with the same hash
+            s.op(rng.choice(["get", "includes"]), h=1, k=a)
+            s.op(rng.choice(["get", "includes", "get", "del", "put"]), h=1, k=b)
+            if s.ops[-1]["op"] == "put":
+                s.ops[-1]["v"] = rng.choice(vids)
+        if i % 20 == 19:
+            s.op("dump", h=1)
+            s.op("decode", dir="d", name="m", flush_h=1, native=True)
+    s.op("dump", h=1)
+    s.op("iter", h=1, flavour="keys")
+    s.op("new_process")
+    s.op("decode", dir="d", name="m", native=True)
+    s.op("child_dump", dir="d", name="m", kt=kt)
     return s
 
 
@@ -1334,6 +1462,33 @@ def gen_inplace(seed, idbase=0, slots=None, name="inplace"):
             s.op("decode", **dec)
             for k in (ka, kb, kc):
                 s.op("del", h=1, k=k)
+    s.op("new_process")
+    s.op("decode", dir="d", name="m", native=True)
+    return s
+
+
+def gen_stats_sync(seed, idbase=0, rounds=12, name="statsync"):
+    """C17: statistics after update + sync_all/sync_data (no explicit flush), the files decoded in between"""
+    rng = random.Random(seed)
+    s = Script(idbase, design=True, name=name)
+    keys = [s.key(ln) for ln in (4, 5, 5, 8, 10, 29, 100, 0)]
+    vids = [s.val(x) for x in (0, 3, 20, 100, 1100, 2000)]
+    s.op("open_db", db=0, dir="d")
+    s.op("map", h=1, db=0, name="m", kt="bytes", params={"buckets": ["BucketsSize", 16]})
+    for r in range(rounds):
+        for _ in range(rng.randrange(1, 4)):
+            if rng.random() < 0.65:
+                s.op("put", h=1, k=rng.choice(keys), v=rng.choice(vids))
+            else:
+                s.op("del", h=1, k=rng.choice(keys))
+        s.op(rng.choice(["sync_all", "sync_data", "db_sync_all", "flush"]), **({"h": 1}))
+        if s.ops[-1]["op"].startswith("db_"):
+            del s.ops[-1]["h"]
+            s.ops[-1]["db"] = 0
+        s.op("decode", dir="d", name="m", native=True)        # the files as they are after the sync
+        s.op("stats", h=1)
+        if rng.random() < 0.5:
+            s.op("stats", h=1)
     s.op("new_process")
     s.op("decode", dir="d", name="m", native=True)
     return s
